@@ -51,7 +51,7 @@ REQUIRED = ['trust_cases', 'accept_expected', 'reject_expected',
             'cert_cases', 'cert_boundary_cases', 'revoked_cases',
             'hashed_cases', 'port_cases', 'no_credentials_sent_checked',
             'callback_cases', 'alias_cases', 'file_cases',
-            'lie_cases']
+            'lie_cases', 'reuse_lookups', 'tunnel_cases']
 BUDGET_S = {'quick': 300, 'thorough': 3400}
 CASE_TIMEOUT_S = 60
 
@@ -312,6 +312,37 @@ def gen_cases(tier, seed):
                       'chunk': rng.choice(['all', 'record', 'random']),
                       'cseed': rng.randrange(1 << 30)})
 
+    # one loaded known_hosts object serving several connections: every
+    # decision is the one a freshly loaded object would take
+    for i in range(90 if tier == 'quick' else 1500):
+        host = HOSTS[i % len(HOSTS)]
+        a, b = rng.sample(ADDRS[:3], 2)
+        k0, k1, k2 = rng.sample([0, 1, 2, 3], 3)
+        form = ['exact', 'wild', 'cidr', 'multi'][i % 4]
+        apat = {'exact': [a], 'wild': [a.rsplit('.', 1)[0] + '.*'],
+                'cidr': [a + '/32'], 'multi': ['zz.example', a]}[form]
+        entries = [['', [host], k0], ['', apat, k1]]
+        if i % 5 == 0:
+            entries.append(['revoked', [b], k0])
+        steps = [[rng.choice([a, b]), rng.choice([k0, k1, k1, k2])]
+                 for _ in range(3)]
+        if i % 3 == 0:
+            steps = [[a, k0], [b, k1], [a, k1]]
+        cases.append({'kind': 'reuse', 'host': host, 'entries': entries,
+                      'steps': steps, 'chunk': 'all',
+                      'cseed': rng.randrange(1 << 30)})
+
+    # through a jump host (tunnel= an established connection): the trust
+    # decision for the destination uses the destination's name only - the
+    # client does not know its address, and the hop's address is not it
+    for dk in ('D', 'J', 'X'):
+        for jform in ('bare_addr', 'ported_addr', 'addr_wild', 'cidr', 'star',
+                      'none'):
+            for dest_listed in (True, False):
+                cases.append({'kind': 'tunnel', 'dest_key': dk,
+                              'jump_line': jform, 'dest_listed': dest_listed,
+                              'chunk': 'all', 'cseed': 3})
+
     nl = 135 if tier == 'quick' else 1500
     for i in range(nl):
         cases.append({'kind': 'lie',
@@ -329,6 +360,10 @@ def gen_cases(tier, seed):
 def signature(case):
     if case['kind'] == 'lie':
         return 'lie-' + case['lie'] + '-' + case['chunk']
+    if case['kind'] in ('reuse', 'tunnel'):
+        return hashlib.sha1(repr(sorted(
+            (k, repr(v)) for k, v in case.items()
+            if k != 'cseed')).encode()).hexdigest()[:16]
     shape = [(m, [('h' if p.startswith('|1|') else
                    'c' if '/' in p else 'n' if p.startswith('!') else
                    'p' if p.startswith('[') else
@@ -555,6 +590,138 @@ def _run_trust(case, mon, viol):
     return info
 
 
+def _run_reuse(case, mon, viol):
+    pool = _pool()
+    info = {'steps': []}
+    text = _kh_text(case['entries'])
+
+    async def main(loop):
+        kh = asyncssh.import_known_hosts(text)
+        for n, (addr, key) in enumerate(case['steps']):
+            async with scen.Env(loop, server_factory=lambda: apps.RecServer(
+                    apps.EventLog()), chunking=case['chunk'],
+                    seed=case['cseed'] + n, host_keys=[pool[key]],
+                    server_opts={'server_host_certs': []}) as env:
+                env.wire.server_addr = (addr, 22)
+                ct = asyncio.ensure_future(asyncssh.connect(
+                    'dial.example', 22, tunnel=env.wire, username='user',
+                    client_keys=None, agent_path=None, config=None,
+                    known_hosts=kh, host_key_alias=case['host']))
+                env.san.harness_tasks.add(ct)
+                await env.settle()
+                if not ct.done():
+                    ct.cancel()
+                res = (await asyncio.gather(ct, return_exceptions=True))[0]
+                ok = not isinstance(res, BaseException)
+                if ok:
+                    res.abort()
+                await env.settle()
+                env.san.drain()
+            exp, why = model(case['entries'], case['host'], addr, 22,
+                             {'kind': 'key', 'key': key})
+            info['steps'].append((addr, key, ok, exp))
+            mon['reuse_lookups'] += 1
+            mon['trust_cases'] += 1
+            if exp is not None and ok != exp:
+                viol.append({
+                    'mechanism': 'untrusted_host_key_accepted' if ok
+                    else 'trusted_host_key_refused',
+                    'detail': f'connection {n + 1} through one loaded '
+                              f'known_hosts object: {case["host"]} at {addr} '
+                              f'presenting key {key}: connected={ok}, a '
+                              f'fresh object decides {exp} ({why}); earlier '
+                              f'lookups={info["steps"][:-1]} known_hosts='
+                              f'{text!r:.400}'})
+                break
+
+    scen.run(main)
+    return info
+
+
+def _run_tunnel(case, mon, viol):
+    info = {}
+    kj = apps.host_key('ssh-ed25519', 50)
+    kd = apps.host_key('ssh-ed25519', 51)
+    kx = apps.host_key('ssh-ed25519', 52)
+    dest_key = {'D': kd, 'J': kj, 'X': kx}[case['dest_key']]
+    pub = lambda k: k.export_public_key().decode().strip()  # noqa: E731
+    reached = []
+
+    class Jump(asyncssh.SSHServer):
+        def begin_auth(self, username):
+            return False
+
+        def connection_requested(self, dest_host, dest_port, orig_host,
+                                 orig_port):
+            return True
+
+    class Dest(asyncssh.SSHServer):
+        def begin_auth(self, username):
+            reached.append(username)
+            return False
+
+    async def main(loop):
+        ja = await asyncssh.listen('127.0.0.1', 0, server_host_keys=[kj],
+                                   server_factory=Jump)
+        da = await asyncssh.listen('127.0.0.1', 0, server_host_keys=[dest_key],
+                                   server_factory=Dest)
+        pj, pd = ja.get_port(), da.get_port()
+        lines = [f'[127.0.0.1]:{pj} {pub(kj)}']
+        jl = case['jump_line']
+        if jl == 'bare_addr':
+            lines.append(f'127.0.0.1 {pub(kj)}')
+        elif jl == 'ported_addr':
+            lines.append(f'[127.0.0.1]:{pd} {pub(kj)}')
+        elif jl == 'addr_wild':
+            lines.append(f'127.0.0.* {pub(kj)}')
+        elif jl == 'cidr':
+            lines.append(f'127.0.0.0/8 {pub(kj)}')
+        elif jl == 'star':
+            lines.append(f'*.example.com,jump* {pub(kj)}')
+        if case['dest_listed']:
+            lines.append(f'[localhost]:{pd} {pub(kd)}')
+        kh = asyncssh.import_known_hosts('\n'.join(lines) + '\n')
+        common = dict(username='user', client_keys=None, agent_path=None,
+                      config=None, known_hosts=kh)
+        try:
+            c1 = await asyncio.wait_for(
+                asyncssh.connect('127.0.0.1', pj, **common), 60)
+            try:
+                c2 = await asyncio.wait_for(asyncssh.connect(
+                    'localhost', pd, tunnel=c1, **common), 60)
+                ok = True
+                c2.abort()
+            except (asyncssh.Error, OSError) as exc:
+                ok = False
+                info['error'] = repr(exc)[:120]
+            c1.abort()
+        finally:
+            ja.close()
+            da.close()
+            await ja.wait_closed()
+            await da.wait_closed()
+        exp = case['dest_listed'] and case['dest_key'] == 'D'
+        info.update(connected=ok, expected=exp, reached=list(reached))
+        mon['tunnel_cases'] += 1
+        mon['trust_cases'] += 1
+        what = (f'destination behind a jump host presents key '
+                f'{case["dest_key"]}; known_hosts lists the jump host as '
+                f'{jl!r} and the destination: {case["dest_listed"]}')
+        if ok and not exp:
+            viol.append({'mechanism': 'untrusted_host_key_accepted',
+                         'detail': what + '; connect succeeded'})
+        elif exp and not ok:
+            viol.append({'mechanism': 'trusted_host_key_refused',
+                         'detail': what + f'; {info.get("error")}'})
+        if not exp and reached:
+            viol.append({'mechanism': 'client_proceeded_after_untrusted_key',
+                         'detail': what + f'; an authentication request for '
+                                          f'{reached} reached the destination'})
+
+    vloop.run(main, virtual=True)
+    return info
+
+
 def _run_lie(case, mon, viol):
     info = {}
     from asyncssh import public_key as PK
@@ -700,6 +867,10 @@ def run_case(case):
     try:
         if case['kind'] == 'trust':
             info = _run_trust(case, mon, viol)
+        elif case['kind'] == 'reuse':
+            info = _run_reuse(case, mon, viol)
+        elif case['kind'] == 'tunnel':
+            info = _run_tunnel(case, mon, viol)
         else:
             info = _run_lie(case, mon, viol)
     except vloop.QuiescentHang as exc:
